@@ -50,6 +50,11 @@ func FaultKinds(rtt time.Duration) []simworld.Action {
 		{Kind: "flip", Pos: -40}, // inside the AEAD-protected region of the last packet
 		{Kind: "trunc", N: 20},
 		{Kind: "trunc", N: -2}, // half (resolved per datagram by the router: negative = fraction marker)
+		// unauthenticated-looking header positions: version field, connection ID area.  In a long header
+		// they are covered by the AEAD (associated data) or change the keys, so the packet is dropped and
+		// retransmitted; a Version Negotiation packet that lists the client's own version must be ignored.
+		{Kind: "flip", Pos: 1},
+		{Kind: "flip", Pos: 7},
 	}
 }
 
@@ -96,8 +101,16 @@ func FaultSuite(l *evlog.Log, clients []ClientSel, k1Scen []string, nFirst int, 
 			for j := 0; j < nk.k; j++ {
 				fs = append(fs, simworld.Fault{Dir: wiretap.Dir(rng.IntN(2)), Ordinal: rng.IntN(nFirst + 4), Action: kinds[rng.IntN(len(kinds))]})
 			}
+			retry := rng.IntN(5) == 0
+			for _, f := range fs {
+				if f.Action.Kind == "flip" && f.Action.Pos > 0 {
+					// a damaged Retry token is parsed before the packet is authenticated and answered with
+					// INVALID_TOKEN (documented behaviour): keep header flips out of Retry scenarios
+					retry = false
+				}
+			}
 			add(&ConnCase{Name: fmt.Sprintf("k%d/%s/%s/v2=%v/%04d", nk.k, sc, cl.Client, cl.V2, i), Client: cl.Client, V2: cl.V2, Schedule: simworld.Schedule{Faults: fs},
-				Transfer: Scenario(sc, rng.Uint64()), Datagrams: sc == "S5", Retry: rng.IntN(5) == 0, ServerCIDLen: []int{0, 0, 4, 8, 20}[rng.IntN(5)]})
+				Transfer: Scenario(sc, rng.Uint64()), Datagrams: sc == "S5", Retry: retry, ServerCIDLen: []int{0, 0, 4, 8, 20}[rng.IntN(5)]})
 		}
 	}
 	for i := 0; i < nRate; i++ {
